@@ -144,6 +144,10 @@ UNITS['c02'] = {
         ('header_params_dropped', 'params.push(ReferenceOr::Item(self.prop_header_param(p)));', '', ['C02.params', 'C02.xfer_params']),
         ('query_params_as_headers', 'params.push(ReferenceOr::Item(self.prop_query_param(p)));', 'params.push(ReferenceOr::Item(self.prop_header_param(p)));', ['C02.params', 'C02.xfer_params']),
         ('path_keyed_by_constant', 'rel.uri.pattern(),', 'String::new(),', ['C02.paths', 'C02.all_paths']),
+        ('default_response_replaced', 'opt_get_or_insert(&mut default,', 'opt_insert(&mut default,', ['C02.responses']),
+        ('status_response_never_reused', 'entry_or_insert(&mut responses, self.http_status_code(s), ReferenceOr::Item(Response::default()))', 'opt_insert(&mut default, ReferenceOr::Item(Response::default()))', ['C02.responses', 'C02.xfer_responses']),
+        ('media_type_not_inserted', 'res.content.insert(media_type, media_schema);', '', ['C02.responses', 'C02.xfer_responses']),
+        ('request_body_without_schema', 'schema: Some(self.schema(schema)), examples: self.content_examples(domain),', 'schema: None, examples: self.content_examples(domain),', ['C02.request', 'C02.domain_request']),
         ('method_label_put_is_post', 'atom::Method::Put => "put",', 'atom::Method::Put => "post",', ['C02.method_label']),
     ],
 }
@@ -253,10 +257,13 @@ PROPS = {
         'units': ['c02'],
         'level': 'other',
         'obligation_prefixes': ['C02.'],
-        'technique': 'Verus contracts on the real emitter functions Builder::{all_paths, relation_path_item, xfer_params, method_label} over mirrored openapiv3 field lists and the real spec::{Transfer, Relation, Spec, Content, Object} types',
+        'technique': 'Verus contracts on the real emitter functions Builder::{all_paths, relation_path_item, xfer_params, xfer_request, domain_request, xfer_responses, method_label} over mirrored openapiv3 field lists and the real spec::{Transfer, Relation, Spec, Content, Object} types',
         'level_text': 'Deductive proof (Verus/Z3) of the structural skeleton of the translation, for every evaluated program: all_paths emits exactly one path item per resource, keyed by the resource\'s URI pattern, in program order '
                       '(precondition: the patterns are pairwise distinct — equal patterns would collapse in the IndexMap); relation_path_item fills, for every declared method, exactly that method\'s slot with an operation whose id, description, tags, parameters, '
-                      'request body and responses are built from THAT method\'s transfer, and leaves every other slot empty; xfer_params lists every declared query parameter and every request header once, in order. '
+                      'request body and responses are built from THAT method\'s transfer, and leaves every other slot empty; xfer_params lists every declared query parameter and every request header once, in order; '
+                      'domain_request emits a request body exactly when the request content has a schema, with one media type (declared or default) carrying that schema and the content\'s examples; '
+                      'xfer_responses drops no declared range: every (status, media type) alternative with a schema has its media type, schema and examples in the response of its status (the default response when it has none) — '
+                      'on the pinned tree that obligation failed for status-less alternatives (genuine defect, repaired by fix 3b15650). '
                       'What the leaves mean (schemas, responses, request bodies, annotations), i.e. agreement with an independent reference semantics of the language, is not decided: level other.',
         'level_note': 'ASSUMED: openapiv3 struct field lists are mirrored mechanically from the vendored crate (payload types opaque), `#[derive(Default)]` gives None / empty; EnumMap iterates in the declaration order of atom::Method (R-local rewrite of the filter_map chain to `declared_transfers`); '
                       'IndexMap::collect inserts in iteration order (R15); Option<String>/Vec<String> clones are equal; xfer_id, xfer_request, xfer_responses, uri_params, prop_query_param, prop_header_param are uninterpreted functions of their inputs here '
@@ -264,7 +271,7 @@ PROPS = {
         'design_ref': 'DESIGN.md section 12.14',
         'explanation': 'The plan listed C02 as not applicable (needs a reference semantics). The clause "nothing declared is silently dropped, duplicated, or attached to a different declaration than the one the source names" has a function-level core in the emitter: which slot an operation goes to and which transfer it is built from.',
         'assumptions': ['patterns of the resources are pairwise distinct (otherwise later resources overwrite earlier ones: not checked by the compiler)', 'shims listed in level_note'],
-        'not_decided': ['the evaluator side of the translation (that the evaluated spec means what the source says)', 'xfer_responses (status / media type grouping), domain_request, schemas, headers, annotations', 'uniqueness of URI patterns across resources', 'operationId uniqueness'],
+        'not_decided': ['the evaluator side of the translation (that the evaluated spec means what the source says)', 'schemas (value_schema and below), content_headers, annotations, xfer_id; headers / description of a response shared by several alternatives (the last one wins)', 'uniqueness of URI patterns across resources', 'operationId uniqueness'],
     },
     'C03': {
         'units': ['c03'],
